@@ -11,6 +11,8 @@ exported network runs on an input of the original shape).
 import os, json, copy, random, traceback
 from .common import *
 from . import c09_gen as CG
+from . import c09_calcgen as GEN
+from .c09_calcgen import regenerate      # setup.sh regenerates Gen/CalcGen.v through this name
 
 LAYER = ('conv1d', 'conv2d', 'linear')
 BN = ('bn1d', 'bn2d')
@@ -794,7 +796,9 @@ def b2c(bits):
 
 
 def run(ctx):
+    gen_rejected = GEN.regenerate(ctx)
     built = ctx.build()
+    GEN.note(ctx, built, gen_rejected)
     ctx.rule = ('corpus of minimized failures first, then seeded architectures from the C09 grammar (c09_gen.py: stems, conv/depthwise/residual blocks, channel-cat of 2..3 tensors of '
                 'searchable / excluded / network-input / depthwise / nested-cat origin incl. repeated operands, time-axis cat, depthwise after cat, add with a cat operand, standalone BatchNorm, '
                 'flatten fn/method/module with start_dim 1 and 2 and spatial size 1 and >1, squeeze/unsqueeze fn/method with positive/negative dims, cat of flattened tensors, exclusion by name and by type, '
@@ -945,7 +949,9 @@ def run(ctx):
     if mism:
         ctx.notes.append('first mismatches: ' + repr(mism[:3])[:3000])
     if not ctx.violations:   # a printed KNOWN-FINDING must not hide a broken proof / model / correspondence
-        if not built:
+        if GEN.report_rejected(ctx, built, gen_rejected):
+            pass
+        elif not built:
             ctx.violation('proof-broken', {'theorems': [o[0] for o in ctx.obligations if not o[1]], 'log': getattr(ctx, 'broken_log', '')[-3000:]}, 'Props/C09.v no longer checks', no_input=True)
         elif not model_ok:
             ctx.violation('model-eval-broken', {'notes': ctx.notes}, 'the model could not be evaluated', no_input=True)
